@@ -210,7 +210,9 @@ fn pair_by_rank(orig: &[Change], anon: &[Change]) -> Option<Vec<Change>> {
 }
 
 fn heads_sets(orig: &[Change], d: &mut AutoCommit) -> Vec<Vec<ChangeHash>> {
-    let mut v: Vec<Vec<ChangeHash>> = orig.iter().map(|c| vec![c.hash()]).collect();
+    // long histories (the many-actors scenario): the first and the last four changes and every 16th one
+    let n = orig.len();
+    let mut v: Vec<Vec<ChangeHash>> = orig.iter().enumerate().filter(|(i, _)| n <= 80 || *i < 4 || *i + 4 >= n || *i % 16 == 0).map(|(_, c)| vec![c.hash()]).collect();
     v.push(d.get_heads());
     v
 }
@@ -492,6 +494,7 @@ pub fn generate(r: &mut Rng, _opts: &BTreeMap<String, String>, sess: &mut Sessio
     let mut all: Vec<String> = vec![];
     run(sess, &format!("crdt.new r0 {} {}", enc_s, hex::encode(&pool[0])), out);
     let scenario = r.below(8);
+    let mut list_obj: Option<String> = None;
     if scenario == 0 {
         // every single-character ASCII key in one map: printable and control characters
         out.count("scenario_all_ascii_keys");
@@ -525,7 +528,8 @@ pub fn generate(r: &mut Rng, _opts: &BTreeMap<String, String>, sess: &mut Sessio
         commit(sess, out, "r0", &mut all);
     } else {
         // seed structure: a list, a text, a counter
-        run(sess, "crdt.putobj r0 _ m6c697374 L", out);
+        let lres = run(sess, "crdt.putobj r0 _ m6c697374 L", out);
+        list_obj = lres[0].strip_prefix("ok ").map(|s| s.to_string());
         let res = run(sess, "crdt.putobj r0 _ m74 T", out);
         let t = res[0].strip_prefix("ok ").unwrap_or("_").to_string();
         run(sess, &format!("crdt.splice r0 {} 0 0 {}", t, hx("héllo 🙂 wörld".as_bytes())), out);
@@ -549,6 +553,30 @@ pub fn generate(r: &mut Rng, _opts: &BTreeMap<String, String>, sess: &mut Sessio
                 out.count("merges");
             }
             _ => tx(r, sess, out, &who, &mut all, enc),
+        }
+    }
+    // many actors: a few hundred replicas forked from the same state each make ONE concurrent change with
+    // equal op counters (a put of alternating type on one contested key, an insert at the head of the
+    // shared list): the winner, the conflict order and the list order are decided by the actor order
+    // alone, over more actors than fit one byte of rank
+    if r.chance(1, 8) {
+        out.count("scenario_many_actors");
+        if !all.is_empty() { run(sess, &format!("crdt.apply r0 {}", all.join(",")), out); }
+        let n = r.range(258, 300) as usize;
+        let mut ids: BTreeSet<u16> = BTreeSet::new();
+        while ids.len() < n { ids.insert(r.below(65536) as u16); }
+        let mut ids: Vec<u16> = ids.into_iter().collect();
+        for i in (1..ids.len()).rev() { let j = r.below(i as u64 + 1) as usize; ids.swap(i, j); }
+        for (k, id) in ids.iter().enumerate() {
+            let name = format!("x{}", k);
+            run(sess, &format!("crdt.fork r0 {} 30{:04x}", name, id), out);
+            match k % 3 {
+                0 => { run(sess, &format!("crdt.put {} _ m6b i{}", name, k), out); }
+                1 => { run(sess, &format!("crdt.putobj {} _ m6b T", name), out); }
+                _ => { run(sess, &format!("crdt.put {} _ m6b s{}", name, hx(format!("v{}", k).as_bytes())), out); }
+            }
+            if let Some(l) = &list_obj { run(sess, &format!("crdt.ins {} {} 0 i{}", name, l, k), out); }
+            commit(sess, out, &name, &mut all);
         }
     }
     // everything into r0
